@@ -589,10 +589,11 @@ func DeleteConflicts(uuid dvid.UUID, data DataService, oldParents, newParents []
 			}
 			if !bytes.Equal(curTK, batchTK) {
 				// Get conflicts.
+				// An error leaves toDelete empty: nothing is deleted for this key, but the batch must
+				// still be closed and the end-of-stream marker still honored.
 				toDelete, err := kvv.FindConflicts(parentsV)
 				if err != nil {
 					dvid.Errorf("Error finding conflicts: %v\n", err)
-					continue
 				}
 
 				// Create new node if necessary to apply deletions, and if so, store new node.
